@@ -77,13 +77,20 @@ theorem lookup_cons (q : Blk × Scope) (tbl : List (Blk × Scope)) (b : Blk) :
 
 theorem lookup_of_forall₂ {P : Prog} : ∀ (bs : List Blk) (tbl : List (Blk × Scope)),
     All2 (fun b q => q.1 = b ∧ IsScope P b q.2) bs tbl →
-    (∀ b ∈ bs, IsScope P b (lookup tbl b)) ∧ (∀ q ∈ tbl, q.1 ∈ bs ∧ q.2 = lookup tbl q.1) := by
+    (∀ b ∈ bs, IsScope P b (lookup tbl b)) ∧ (∀ q ∈ tbl, q.1 ∈ bs ∧ q.2 = lookup tbl q.1) ∧
+      (∀ b ∈ bs, ∃ q ∈ tbl, q.1 = b) := by
   intro bs tbl h
   induction h with
   | nil => simp
   | @cons b q bs tbl hq _ ih =>
     obtain ⟨hq1, hq2⟩ := hq
-    constructor
+    refine ⟨?_, ?_, ?_⟩
+    rotate_left 2
+    · intro b' hb'
+      rcases List.mem_cons.mp hb' with rfl | hb'
+      · exact ⟨q, List.mem_cons_self, hq1⟩
+      · obtain ⟨q', m, e⟩ := ih.2.2 b' hb'
+        exact ⟨q', List.mem_cons_of_mem _ m, e⟩
     · intro b' hb'
       rw [lookup_cons]
       by_cases hb : q.1 = b'
@@ -97,7 +104,7 @@ theorem lookup_of_forall₂ {P : Prog} : ∀ (bs : List Blk) (tbl : List (Blk ×
       rw [lookup_cons]
       rcases List.mem_cons.mp hq' with rfl | hq'
       · simp [hq1]
-      · obtain ⟨m, e⟩ := ih.2 q' hq'
+      · obtain ⟨m, e⟩ := ih.2.1 q' hq'
         refine ⟨List.mem_cons_of_mem _ m, ?_⟩
         by_cases hb : q.1 = q'.1
         · simp only [hb, if_true]
@@ -118,7 +125,8 @@ theorem forall₂_comp {α β γ : Type} {R : α → β → Prop} {S : β → γ
     | cons hs h2 => exact .cons (hc _ _ _ hr hs) (ih h2)
 
 theorem scopes_ok {P : Prog} {tbl : List (Blk × Scope)} (h : scopes P = .ok tbl) :
-    (∀ b ∈ P.blocks, IsScope P b (lookup tbl b)) ∧ (∀ q ∈ tbl, q.1 ∈ P.blocks ∧ q.2 = lookup tbl q.1) := by
+    (∀ b ∈ P.blocks, IsScope P b (lookup tbl b)) ∧ (∀ q ∈ tbl, q.1 ∈ P.blocks ∧ q.2 = lookup tbl q.1) ∧
+      (∀ b ∈ P.blocks, ∃ q ∈ tbl, q.1 = b) := by
   unfold scopes at h
   cases h1 : pass1 P with
   | error e => simp [h1, bind, Except.bind] at h
@@ -249,11 +257,8 @@ theorem checkLeak_ok {P : Prog} {live : Blk → List Leaf} {b : Blk} {s : Scope}
   by_cases hall : ((P.succ b).all fun c => (live c).contains x) = true
   · have := List.all_eq_true.mp hall c hc
     simpa using this
-  · simp [hall] at h
-    obtain ⟨c', hc', hx⟩ := h
-    simp at hall
-    obtain ⟨c'', hc'', hx'⟩ := hall
-    simp_all
+  · simp only [hall] at h
+    simp at h
 
 theorem checkEdges_ok {P : Prog} {live : Blk → List Leaf} {b : Blk} {s : Scope}
     (h : checkEdges P live b s = .ok ()) :
@@ -303,7 +308,8 @@ theorem exitUse_spec : ∀ (ls : List Leaf) (s s' : Scope), s.vars = [] → ls.f
         rcases List.mem_cons.mp hy with rfl | hy
         · simpa using hp
         · exact a5 y hy
-    · simp [hp, bind, Except.bind] at h
+    · have hp' : x ∉ s.parent := by simpa using hp
+      simp [hp', bind, Except.bind] at h
 
 /-- summary of pass 1 (+ exit amendment) for one linear leaf of one block: the bookkeeping ran
     successfully over exactly the leaf's events of the block -/
@@ -334,8 +340,8 @@ theorem block_proj {P : Prog} (hw : P.WF) {l : Leaf} (hl : P.lin l = true) {b : 
       have hup : l ∈ s.usedParent := (a4 l).mpr (Or.inr hbl)
       have hul : l ∉ s.usedLocal := by rw [a2, hs0]; simp [initScope, hne]
       simp only [hbl, if_true]
-      simp [crun, cstep, Scope.proj, initScope, hne, a1, hup, hul] at hpar ⊢
-      exact hpar
+      simp [initScope, hne] at hpar
+      simp [crun, cstep, Scope.proj, initScope, hne, a1, hup, hul, hpar]
     · have hup : l ∉ s.usedParent := by
         rw [a4]; rw [hs0]; simp [initScope, hne, hbl]
       have hul : l ∉ s.usedLocal := by rw [a2, hs0]; simp [initScope, hne]
